@@ -38,6 +38,8 @@ pub fn gen_case(ch: &mut Chooser) -> Case {
     let mut labels: Vec<&'static str> = vec![];
     // which procedures each library exports, under which external name
     let mut ext: Vec<Vec<(String, String)>> = vec![];
+    // (library, own-abs, exported vector, its writer, its reader): called with arguments of their own
+    let mut special: Vec<(usize, String, String, String, String)> = vec![];
     for i in 1..=n_libs {
         let k = 1 + ch.below(5) as i32;
         let hconst = 10 * i as i32;
@@ -80,6 +82,16 @@ pub fn gen_case(ch: &mut Chooser) -> Case {
             d("shared-name", sym(&format!("lib{}", i))),
             dp(&gets_i, &[], vec![var("shared-name")]),
         ];
+        // the library's own procedure named like one it imports from (scheme base), published under another name; and a
+        // vector it exports and mutates through a procedure
+        let (abs_i, abs_e) = ("abs".to_string(), format!("own-abs-l{}", i));
+        body.push(dp(&abs_i, &["x"], vec![app("list", vec![sym("own-abs"), var("x")])]));
+        let (reg_i, reg_e) = nm("reg");
+        let (claim_i, claim_e) = nm("claim!");
+        let (seen_i, seen_e) = nm("seen");
+        body.push(d(&reg_i, app("vector", vec![sym("free"), sym("free")])));
+        body.push(dp(&claim_i, &["k", "who"], vec![app("vector-set!", vec![var(&reg_i), var("k"), var("who")]), Expr::Int(0)]));
+        body.push(dp(&seen_i, &[], vec![app("list", vec![app("vector-ref", vec![var(&reg_i), Expr::Int(0)]), app("vector-ref", vec![var(&reg_i), Expr::Int(1)])])]));
         // a syntax definition private to the library, of a name the importer may use for a procedure of its own
         if ch.chance(1, 3) {
             body.push(Form::Raw("(define-syntax twice (syntax-rules () ((twice e) (+ e e))))".into()));
@@ -95,6 +107,11 @@ pub fn gen_case(ch: &mut Chooser) -> Case {
         let (peek2_i, peek2_e) = nm("peek-again");
         body.push(dp(&peek2_i, &[], vec![var("count")]));
         let mut exports = vec![(next_i.clone(), next_e), (peek_i.clone(), peek_e), (useh_i, useh_e), (leak_i, leak_e), (gets_i, gets_e), (peek2_i, peek2_e)];
+        special.push((i, abs_e.clone(), reg_e.clone(), claim_e.clone(), seen_e.clone()));
+        exports.push((abs_i, abs_e));
+        exports.push((reg_i, reg_e));
+        exports.push((claim_i, claim_e));
+        exports.push((seen_i, seen_e));
         // an external name that is also the name of an unexported internal binding: (rename next helper) publishes
         // next under the name helper; the library's own helper is untouched
         if n_libs == 1 && ch.chance(1, 3) {
@@ -168,12 +185,35 @@ pub fn gen_case(ch: &mut Chooser) -> Case {
     let mut callable: Vec<(String, usize)> = vec![];
     for (i, prefix) in &direct {
         for (_, e) in &ext[*i - 1] {
+            // (the procedures with arguments of their own and the exported vector are used by a step of their own)
+            if e.starts_with("own-abs") || e.starts_with("reg") || e.starts_with("claim!") {
+                continue;
+            }
             callable.push((format!("{}{}", prefix, e), *i));
         }
     }
+    // the special exports of the directly imported libraries, under the names the program knows them by
+    let special_here: Vec<(String, String, String, String)> = direct
+        .iter()
+        .filter_map(|(i, prefix)| special.iter().find(|s| s.0 == *i).map(|s| (format!("{}{}", prefix, s.1), format!("{}{}", prefix, s.2), format!("{}{}", prefix, s.3), format!("{}{}", prefix, s.4))))
+        .collect();
     let steps = 6 + ch.below(16);
     for _ in 0..steps {
-        match ch.weighted(&[10, 3, 2, 2, 2, 2]) {
+        match ch.weighted(&[10, 3, 2, 2, 2, 2, 3]) {
+            6 => {
+                let (abs_n, reg_n, claim_n, seen_n) = special_here[ch.below(special_here.len())].clone();
+                let e = match ch.below(5) {
+                    0 => app(&abs_n, vec![Expr::Int(-5)]),
+                    1 => app(&claim_n, vec![Expr::Int(ch.below(2) as i32), sym(*ch.pick(&["prog", "again"]))]),
+                    2 => app("vector-set!", vec![var(&reg_n), Expr::Int(ch.below(2) as i32), sym("direct")]),
+                    3 => app(&seen_n, vec![]),
+                    _ => var(&reg_n),
+                };
+                program.push(Form::Expr(e));
+                if !labels.contains(&"exported-vector-and-shadowing-export") {
+                    labels.push("exported-vector-and-shadowing-export");
+                }
+            }
             0 => {
                 let (name, _) = callable[ch.below(callable.len())].clone();
                 let e = if name.contains("use-helper") { app(&name, vec![Expr::Int(ch.range(0, 5) as i32)]) } else { app(&name, vec![]) };
